@@ -495,6 +495,8 @@ def gen_case(rng, min_age):
     pool = sorted({s[1] + d for s in store for d in (0, 0, -1, 1)} | {ts_near() for _ in range(3)}
                   | {now0 - min_age - 1, now0 - min_age, now0 - min_age + 1, now0, now0 + 5000})
     pool = [t for t in pool if t >= 0]
+    if rng.random() < 0.5:
+        pool = [0] + pool          # boundary argument 0 (a falsy number) for from / to / timestamps
     tspool = rng.sample(pool, min(len(pool), rng.randint(3, 8)))
 
     def num_arg(valid, allow_empty=False):
